@@ -63,6 +63,15 @@ def check_message(mido, m, acc, ns, do_repr=True):
         if not same_msg(m, m2b):
             acc.violation(f'parse_string/{m.type}{dlen}',
                           f'parse_string({text!r}) = {m2b!r}', case)
+        # the other spellings of the same codec
+        t2 = mido.format_as_string(m)
+        t3 = mido.format_as_string(m, include_time=False)
+        m5 = mido.parse_string(t3)
+        if t2 != text or not same_msg(m.copy(time=0), m5) or \
+                'time=' in t3.split(' ', 1)[-1].replace('data=', ''):
+            acc.violation(f'format_as_string/{m.type}{dlen}',
+                          f'format_as_string = {t2!r} / without time {t3!r} '
+                          f'-> {m5!r}; str = {text!r}', case)
     except Exception as e:
         acc.violation(f'str-raises/{m.type}{dlen}/{type(e).__name__}',
                       f'from_str(str({m!r})) raised {e!r}', case)
@@ -398,6 +407,27 @@ def worker(shard):
                                       f'{e!r}', {'kind': 'assign'})
                         continue
                     check_message(mido, m, acc, ns)
+                    # built through the other doors: the skip_checks option,
+                    # the decoder, copy with overrides
+                    try:
+                        others = [
+                            mido.Message('sysex', skip_checks=True, time=1,
+                                         data=conv(d) if conv is not iter
+                                         else iter(list(d))),
+                            mido.Message('sysex', time=3).copy(
+                                data=conv(d) if conv is not iter
+                                else iter(list(d))),
+                            mido.Message.from_bytes(
+                                [0xF0, *d, 0xF7], time=2),
+                            mido.Message.from_dict(
+                                {'type': 'sysex', 'data': list(d), 'time': 4}),
+                        ]
+                    except Exception as e:
+                        acc.violation(f'construct-raises/{conv.__name__}',
+                                      f'{e!r}', {'kind': 'assign'})
+                        continue
+                    for o in others:
+                        check_message(mido, o, acc, ns)
         else:
             names = ref.attr_names(type_)
             if full:
